@@ -117,6 +117,20 @@ func genValidConfig(r R) cors.Config {
 			c.Origins = append(c.Origins, r.pick(originsPSL))
 			c.DangerouslyTolerateSubdomainsOfPublicSuffixes = true
 		}
+		// the same host under two schemes with different port sets, in either order
+		if r.chance(1, 5) {
+			h := r.pick([]string{"localhost", "127.0.0.1", "[::1]"})
+			pair := []string{"https://" + r.pick([]string{"localhost", "example.net"}) + r.pick([]string{"", ":8443"}), "http://" + h + r.pick([]string{":9090", ":*", ":8080"})}
+			pair[0] = "https://localhost" + r.pick([]string{"", ":8443"})
+			if h != "localhost" {
+				pair[0] = "connector://" + h + r.pick([]string{"", ":7000"})
+				c.DangerouslyTolerateInsecureOrigins = true
+			}
+			if r.chance(1, 2) {
+				pair[0], pair[1] = pair[1], pair[0]
+			}
+			c.Origins = append(c.Origins, pair...)
+		}
 		c.Origins = r.perm(c.Origins)
 	}
 	if r.chance(1, 8) {
